@@ -138,6 +138,7 @@ func propC08(r *Run, w *World) {
 	x.ackVerified("C08.R1", nil)
 	x.getReplyRules()
 	x.noErrorDropped()
+	x.failFastInLoops()
 	x.dataReplies()
 	x.setFunnel("C08.R6")
 }
@@ -468,6 +469,88 @@ func (x *client) getReplyRules() {
 		okMsg = strings.HasSuffix(t, "[0]") && strings.Contains(t, "recv#0")
 	}
 	r.Check(okMsg, "msg = msgs[0]", fn.Pos(), "", "the reply inspected is not the first message of the last receive")
+}
+
+// failFastInLoops: C08.R7. Inside a loop of a client command, an iteration in which a call to
+// another command of the repository returned an error must end the call with a non-nil error
+// (or hand the error to errors.Join): if the loop goes on, a later successful iteration can
+// overwrite the recorded error and the kernel's refusal is never reported.
+func (x *client) failFastInLoops() {
+	r := x.r
+	r.Rule("C08.R7", "fail fast in loops: in every loop of a client command, an iteration in which a call to a repository function returned a non-nil error returns a non-nil error from that iteration or joins the error (it does not go round the loop again, where a later success could overwrite it)", 3)
+	for _, fn := range x.w.PkgFuncs("libaudit") {
+		f := x.w.fileOf(fn)
+		if f != "audit.go" || fn.Parent() != nil {
+			continue
+		}
+		for li, l := range NaturalLoops(fn) {
+			ps, complete := IterationPaths(fn, l)
+			if !complete {
+				r.Undecided(fmt.Sprintf("%s loop#%d", fnName(fn), li), fn.Pos(), "path cap exceeded")
+				continue
+			}
+			for pi, p := range ps {
+				// errors of repository calls that this path found non-nil
+				var failed []ssa.Value
+				for _, e := range p.Events {
+					if e.Kind != EvCond || e.Val == nil {
+						continue
+					}
+					v := e.Val
+					pol := e.ValPol
+					for {
+						if u, ok := v.(*ssa.UnOp); ok && u.Op == token.NOT {
+							v, pol = u.X, !pol
+							continue
+						}
+						break
+					}
+					bo, ok := v.(*ssa.BinOp)
+					if !ok || !isNilConst(bo.Y) || !isErrorType(bo.X.Type()) {
+						continue
+					}
+					if (bo.Op == token.NEQ) != pol {
+						continue // the error was nil
+					}
+					src := p.Resolve(bo.X)
+					var call *ssa.Call
+					switch y := src.(type) {
+					case *ssa.Call:
+						call = y
+					case *ssa.Extract:
+						call, _ = y.Tuple.(*ssa.Call)
+					}
+					if call == nil || call.Call.IsInvoke() || !isRepoFunc(calleeOf(&call.Call)) || p.order(call) < 0 {
+						continue
+					}
+					failed = append(failed, src)
+				}
+				if len(failed) == 0 {
+					continue
+				}
+				key := fmt.Sprintf("%s loop#%d iteration#%d [%s]", fnName(fn), li, pi, p.End)
+				joined := false
+				for _, c := range p.CallsNamed("errors.Join") {
+					for _, a := range varargElems(c.Instr.(*ssa.Call), 0) {
+						for _, fv := range failed {
+							if a != nil && stripConv(a) == fv {
+								joined = true
+							}
+						}
+					}
+				}
+				okRet := false
+				if p.End == "return" {
+					if ret := p.Ret(); ret != nil {
+						if ev, has := errResultP(ret); has && ev != nil && !isNilConst(ev) {
+							okRet = true
+						}
+					}
+				}
+				r.Check(okRet || joined, key, failed[0].Pos(), "the failed call ends the command with an error", "a call that failed inside the loop does not end the command: the loop continues and a later successful iteration can overwrite the error: "+compactPath(p))
+			}
+		}
+	}
 }
 
 func (x *client) noErrorDropped() {
@@ -1221,6 +1304,64 @@ func propC18(r *Run, w *World) {
 		}
 	}
 	// R4
+	r.Rule("C18.R6", "the receive buffer is never empty: on every path of NewNetlinkClient the buffer stored into the client is a fresh buffer of positive size or the caller's buffer under len(buf) != 0 (a zero-length buffer makes every Receive a 0-byte read that discards the datagram)", 1)
+	{
+		fn := x.newNetlink
+		n := 0
+		for _, a := range Writes(w.FieldAccesses(x.fReadBuf)) {
+			if a.Kind != "store" {
+				r.Fail("readBuf "+a.Kind+" in "+fnName(a.Fn), a.Instr.Pos(), "the client's read buffer is written other than by the constructor's store")
+				continue
+			}
+			if !w.ownedBy(a.Fn, fn) {
+				r.Fail("readBuf store in "+fnName(a.Fn), a.Instr.Pos(), "the client's read buffer is replaced outside NewNetlinkClient")
+				continue
+			}
+			n++
+			// every value that can reach the store
+			leaves, _ := phiLeaves(a.Val)
+			phi, isPhi := a.Val.(*ssa.Phi)
+			ok := true
+			detail := ""
+			for _, lf := range leaves {
+				switch v := lf.(type) {
+				case *ssa.MakeSlice:
+					// positive: a constant > 0 or the page size
+					if k, isK := constInt(v.Len); isK {
+						if k <= 0 {
+							ok, detail = false, "a fresh buffer of length "+fmt.Sprint(k)
+						}
+					} else if !strings.Contains(Term(v.Len), "os.Getpagesize()") {
+						ok, detail = false, "a fresh buffer of length "+Term(v.Len)
+					}
+				case *ssa.Parameter:
+					// the caller's buffer: only on an edge where len(buf) != 0 holds
+					lit := "len(" + Term(v) + ") != 0"
+					held := HoldsAt(a.Instr.Block(), lit)
+					if isPhi {
+						for i, e := range phi.Edges {
+							if e == lf {
+								pred := phi.Block().Preds[i]
+								held = HoldsAt(pred, lit)
+								if ifi, isIf := pred.Instrs[len(pred.Instrs)-1].(*ssa.If); isIf && pred.Succs[0] != pred.Succs[1] {
+									if Lit(ifi.Cond, pred.Succs[0] == phi.Block()) == lit {
+										held = true
+									}
+								}
+							}
+						}
+					}
+					if !held {
+						ok, detail = false, "the caller's buffer without "+lit+" (a non-nil buffer of length 0 is kept)"
+					}
+				default:
+					ok, detail = false, "a value the rule does not know: "+Term(lf)
+				}
+			}
+			r.Check(ok, "readBuf stored by NewNetlinkClient", a.Instr.Pos(), "fresh positive-size buffer, or the caller's non-empty buffer", "the read buffer stored into the client can be "+detail)
+		}
+		r.Check(n == 1, "one store of readBuf", fn.Pos(), "", fmt.Sprintf("%d stores of the read buffer in the constructor", n))
+	}
 	r.Rule("C18.R4", "parseNetlinkAuditMessage: the header view and buf[NLMSG_HDRLEN:] are dominated by len(buf) >= NLMSG_HDRLEN; exactly one message; a short buffer is an error", 2)
 	{
 		fn := x.parseMsg
